@@ -43,6 +43,8 @@ EXTRA = {
     "extra/v2.0/noext.d/x.cc": "int x;\n",
     # more than 1000 lines in one file: cbi-tree switches to the 1.2k notation
     "extra/big.c": "".join("int b%d;\n" % i if i % 5 else "// c\n" for i in range(1500)),
+    # more than a MiB of text (a generated table): the content hash covers all of it
+    "extra/huge_table.h": "/* " + "generated " * 120000 + "*/\nint first;\n" + "// pad\n" * 2000 + "int last;\n",
 }
 
 
@@ -55,7 +57,8 @@ def required_cells(tier):
             "summary", "tree", "tree:prune", "tree:-L", "cov", "clustering", "fortran-file", "asm-file",
             "dotted-directory", "crlf-file", "non-utf8-file", "sloc>=1000",
             "report-selection:-R", "report-selection:--report", "report-selection:default-all", "report-selection:-R-all",
-            "exclude:analysis-file-plus-command-line", "hard-link", "cov:-S-through-symlink"]
+            "exclude:analysis-file-plus-command-line", "hard-link", "cov:-S-through-symlink", "file>1MiB", "analysis-file:no-platform-table",
+            "analysis-file:empty-platform-table"]
 
 
 def close2(printed, exact):
@@ -284,6 +287,8 @@ def check_case(ctx, case, base, cls, do_clustering=False):
             cells.add("dotted-directory")
         if case.get("hard"):
             cells.add("hard-link")
+        if "extra/huge_table.h" in case["extra"]:
+            cells.add("file>1MiB")
         if "extra/lib-1.2/w.c" in case["extra"]:
             cells.add("crlf-file")
         if "extra/v2.0/d.ir/l1.h" in case["extra"]:
@@ -293,9 +298,12 @@ def check_case(ctx, case, base, cls, do_clustering=False):
         toml = c08.write_dbs(case, base) if case["tus"] else None
         if toml is None:
             with open(os.path.join(realroot, "analysis.toml"), "w") as f:
-                f.write("[platform]\n")
+                # no platform at all: an empty [platform] table, or no such table
+                f.write("[platform]\n" if len(case["extra"]) % 2 else
+                        "[codebase]\nexclude = [%s]\n" % ", ".join('"%s"' % x for x in toml_ex))
+                cells.add("analysis-file:" + ("empty-platform-table" if len(case["extra"]) % 2 else "no-platform-table"))
             toml = "analysis.toml"
-        if toml_ex:
+        if toml_ex and "[codebase]" not in open(os.path.join(realroot, toml)).read():
             with open(os.path.join(realroot, toml), "a") as f:
                 f.write("\n[codebase]\nexclude = [%s]\n" % ", ".join('"%s"' % x for x in toml_ex))
         # (2) summary
